@@ -243,6 +243,12 @@ fn sexp_to_schema(s: &Sexp) -> Option<SchemaDesc> {
 // running the real generator
 // ---------------------------------------------------------------------------------------------
 
+/// The tree the generated stubs are compiled against: /repo, or the private patched copy `./mutcheck`
+/// runs the check on.
+fn repo_root() -> String {
+    std::env::var("VERIF_REPO_ROOT").unwrap_or_else(|_| ["/", "repo"].concat())
+}
+
 fn scratch_root() -> PathBuf {
     PathBuf::from(format!("/tmp/verif-stub-{}", std::process::id()))
 }
@@ -315,7 +321,9 @@ fn compile_stub(desc: &SchemaDesc) -> String {
     let answer = if outcome != "ok" {
         format!("not-generated:{outcome}")
     } else {
-        let cargo_toml = "
+        let repo = repo_root();
+        let cargo_toml = format!(
+            "
 [package]
 name = \"tests\"
 publish = false
@@ -324,13 +332,14 @@ edition = \"2021\"
 rust-version = \"1.70\"
 
 [dependencies]
-trustfall = { path = '/repo/trustfall' }
+trustfall = {{ path = '{repo}/trustfall' }}
 
 [workspace]
-";
+"
+        );
         std::fs::write(dir.join("Cargo.toml"), cargo_toml).expect("Cargo.toml");
         std::fs::write(dir.join("src").join("lib.rs"), "mod adapter;\n").expect("lib.rs");
-        std::fs::copy("/repo/Cargo.lock", dir.join("Cargo.lock")).expect("Cargo.lock");
+        std::fs::copy(format!("{repo}/Cargo.lock"), dir.join("Cargo.lock")).expect("Cargo.lock");
         let output = Command::new("cargo")
             .current_dir(&dir)
             .env("CARGO_TARGET_DIR", target_dir())
@@ -917,7 +926,7 @@ impl Prop for C26 {
             out.push(Case::new(Sexp::call("stub-check", vec![schema_to_sexp(&desc)]), &["stub-check", pool]));
         }
         // (3) compile oracle
-        let n_compile = if tier == Tier::Quick { 3 } else { 40 };
+        let n_compile = if tier == Tier::Quick { 2 } else { 40 };
         for _ in 0..n_compile {
             let desc = gen_schema(rng, &safe);
             out.push(Case::new(
